@@ -40,6 +40,9 @@ impl Axecutor {
         calculate_rm_imm![u8f; self; i; |d: u8, s:u8| {
             assert_ne!(s, 1, "SHR r/m8, 1 should be handled by opcode SHR r/m8, 1");
 
+            // Only the low bits of the count are used by the CPU
+            let s = s & 0x1f;
+
             if s == 0 {
                 return (d, FLAGS_UNAFFECTED);
             }
@@ -63,6 +66,9 @@ impl Axecutor {
 
         calculate_rm_imm![u16f; u8; self; i; |d: u16, s:u8| {
             assert_ne!(s, 1, "SHR r/m16, 1 should be handled by opcode SHR r/m16, 1");
+
+            // Only the low bits of the count are used by the CPU
+            let s = s & 0x1f;
 
             if s == 0 {
                 return (d, FLAGS_UNAFFECTED);
@@ -88,6 +94,9 @@ impl Axecutor {
         calculate_rm_imm![u32f; u8; self; i; |d: u32, s:u8| {
             assert_ne!(s, 1, "SHR r/m32, 1 should be handled by opcode SHR r/m32, 1");
 
+            // Only the low bits of the count are used by the CPU
+            let s = s & 0x1f;
+
             if s == 0 {
                 return (d, FLAGS_UNAFFECTED);
             }
@@ -112,13 +121,16 @@ impl Axecutor {
         calculate_rm_imm![u64f; u8; self; i; |d: u64, s:u8| {
             assert_ne!(s, 1, "SHR r/m64, 1 should be handled by opcode SHR r/m64, 1");
 
+            // Only the low bits of the count are used by the CPU
+            let s = s & 0x3f;
+
             if s == 0 {
                 return (d, FLAGS_UNAFFECTED);
             }
 
-            match d.checked_shr((s&0x1f) as u32) {
+            match d.checked_shr(s as u32) {
                 Some(v) => {
-                    let cf = if d & (1 << ((s-1)&0x1f)) != 0 { FLAG_CF } else {0};
+                    let cf = if d & (1 << (s-1)) != 0 { FLAG_CF } else {0};
 
                     (v, cf)
                 }
@@ -202,6 +214,9 @@ impl Axecutor {
         debug_assert_eq!(i.code(), Shr_rm8_CL);
 
         calculate_rm_r![u8f; self; i; |d: u8, s: u8| {
+            // Only the low bits of the count are used by the CPU
+            let s = s & 0x1f;
+
             if s == 0 {
                 return (d, FLAGS_UNAFFECTED);
             }
@@ -225,6 +240,9 @@ impl Axecutor {
         debug_assert_eq!(i.code(), Shr_rm16_CL);
 
         calculate_rm_r![u16f; u8; self; i; |d: u16, s: u8| {
+            // Only the low bits of the count are used by the CPU
+            let s = s & 0x1f;
+
             if s == 0 {
                 return (d, FLAGS_UNAFFECTED);
             }
@@ -248,6 +266,9 @@ impl Axecutor {
         debug_assert_eq!(i.code(), Shr_rm32_CL);
 
         calculate_rm_r![u32f; u8; self; i; |d: u32, s: u8| {
+            // Only the low bits of the count are used by the CPU
+            let s = s & 0x1f;
+
             if s == 0 {
                 return (d, FLAGS_UNAFFECTED);
             }
@@ -271,13 +292,16 @@ impl Axecutor {
         debug_assert_eq!(i.code(), Shr_rm64_CL);
 
         calculate_rm_r![u64f; u8; self; i; |d: u64, s: u8| {
+            // Only the low bits of the count are used by the CPU
+            let s = s & 0x3f;
+
             if s == 0 {
                 return (d, FLAGS_UNAFFECTED);
             }
 
-            match d.checked_shr((s&0x1f) as u32) {
+            match d.checked_shr(s as u32) {
                 Some(v) => {
-                    let cf = if d & (1 << ((s-1)&0x1f)) != 0 { FLAG_CF } else {0};
+                    let cf = if d & (1 << (s-1)) != 0 { FLAG_CF } else {0};
                     let of = if s == 1 && d & 0x8000_0000_0000_0000 != 0 { FLAG_OF } else {0};
 
                     (v, cf|of)
